@@ -166,6 +166,14 @@ def _run_vc(args):
         def solve_task(name, fmls, goal, kind):
             r = solve.check_unsat(list(fmls) + [z3.Not(goal)], timeout_ms=to, crosscheck=crosscheck)
             rec = {"name": name, "status": r.status, "backend": r.backend, "ms": round(r.ms, 1), "kind": kind, "note": r.note}
+            if r.status == "sat" and r.model is not None and any(z3.is_string(v) for v in vc.inputs.values() if ip.is_z3(v)):
+                # counterexample over strings: prefer one made of file-name-safe characters, so that it can be replayed natively
+                safe = z3.Star(z3.Union(z3.Range("0", "9"), z3.Range("a", "z"), z3.Range("A", "Z"), z3.Re("-"), z3.Re("_"), z3.Re(".")))
+                extra = [z3.InRe(v, safe) for v in vc.inputs.values() if ip.is_z3(v) and z3.is_string(v)]
+                r2 = solve.check_unsat(list(fmls) + [z3.Not(goal)] + extra, timeout_ms=min(to, 15000))
+                if r2.status == "sat" and r2.model is not None:
+                    r = solve.Result("sat", r.backend, r.ms + r2.ms, r2.model, note="model restricted to file-name-safe characters")
+                    rec["ms"] = round(r.ms, 1)
             if r.status == "sat" and r.model is not None:
                 rec["model"] = {k: _jsonable(solve.model_value(r.model, v)) for k, v in vc.inputs.items()}
                 rec["solver_output"] = str(r.model)[:2000]
